@@ -220,7 +220,7 @@ def expression_index_probe(ctx):
     from django_evolution.signature import (AppSignature, ConstraintSignature, FieldSignature, IndexSignature,
                                             ModelSignature, ProjectSignature)
 
-    def build(age_indexed):
+    def build(age_indexed, more_meta=False):
         p = ProjectSignature()
         a = AppSignature(app_id='vapp')
         m = ModelSignature(model_name='Person', table_name='vapp_person')
@@ -234,6 +234,10 @@ def expression_index_probe(ctx):
         m.add_index(models.Index(fields=['age']))
         m.add_constraint(models.CheckConstraint(check=Q(age__gte=0) | Q(name=''), name='person_age_ok'))
         m.add_constraint(models.UniqueConstraint(fields=['name'], condition=Q(age__lt=5), name='person_name_young'))
+        if more_meta:
+            # entries with several optional parts, in the order Django's deconstruct() gives them
+            m.add_constraint(models.UniqueConstraint(fields=['age'], condition=Q(name='x'), name='person_age_x'))
+            m.add_index(models.Index(fields=['name'], name='person_ts', db_tablespace='ts1', condition=Q(age__gt=3)))
         a.add_model_sig(m)
         p.add_app_sig(a)
         return p
@@ -262,6 +266,25 @@ def expression_index_probe(ctx):
     if not Diff(cur, new).is_empty() or not Diff(new, cur).is_empty() or not (cur == new):
         ctx.fail(None, 'the hinted evolution %s leaves a residual difference next to expression-only indexes: %s'
                  % ([m.generate_hint() for m in hint], str(Diff(cur, new))[:160]), rep)
+    # ... and a change OF the Meta lists themselves: entries with several optional parts are added
+    new2 = build(False, more_meta=True)
+    cur = old.clone()
+    hint = Diff(old, new2).evolution().get('vapp', [])
+    rep2 = {'scenario': 'constraints and indexes with several optional parts added: hinted ChangeMeta, then == and diff'}
+    try:
+        for mu in hint:
+            mu.run_simulation(app_label='vapp', project_sig=cur, database_state=None, database='default')
+    except Exception as e:
+        ctx.fail(None, 'the hinted evolution that adds a conditional constraint and a partial index is rejected: %s'
+                 % type(e).__name__, rep2)
+        return
+    d_empty = Diff(cur, new2).is_empty() and Diff(new2, cur).is_empty()
+    if not d_empty:
+        ctx.fail(None, 'the hinted ChangeMeta of constraints/indexes leaves a residual difference: %s'
+                 % str(Diff(cur, new2))[:160], rep2)
+    elif not (cur == new2 and new2 == cur):
+        ctx.fail(None, '`==` and `diff()` disagree after the hinted ChangeMeta of constraints/indexes: the difference is '
+                 'empty both ways, the signatures are not equal', rep2)
 
 
 def run(ctx):
